@@ -411,19 +411,31 @@ def run(spec):
             rv = {'accumulate': (10, 1, 2, 13), 'nonnegative_accumulate': (10, -15, 4, 4), 'set': (10, 1, 2, None)}
             rupd = ['accumulate', 'nonnegative_accumulate', 'set'][len(spec['batch']) % 3]
             r0, ra, rb, rexp = rv[rupd]
+            # a third port whose update names its own updater (applied after the other two: port order)
+            third = len(spec['batch']) % 2 == 1 and rupd == 'accumulate'
 
             class Batch(Process):
                 def ports_schema(self):
                     sch = copy.deepcopy(schema)
                     sch['ra'] = {'_default': r0, '_updater': rupd}
                     sch['rb'] = {'_default': r0, '_updater': rupd}
+                    if third:
+                        sch['rc'] = {'_default': r0, '_updater': rupd}
                     return sch
 
                 def next_update(self, timestep, states):
-                    return dict(update, ra=ra, rb=rb) if not self.parameters.get('done') else {}
+                    if self.parameters.get('done'):
+                        return {}
+                    out = dict(update, ra=ra, rb=rb)
+                    if third:
+                        out['rc'] = {'_updater': 'set', '_value': 100}
+                    return out
             proc = Batch({'timestep': 1.0})
             topo = {k: (k,) for k in schema}
             topo['ra'] = topo['rb'] = ('rootv',)
+            if third:
+                topo['rc'] = ('rootv',)
+                rexp = 100
             e = Engine(processes={'p': proc}, topology={'p': topo}, display_info=False, emitter='null')
             other_before = e.state.get_path(('other', 'w')).get_value()
             e.update(1.0)
